@@ -32,11 +32,17 @@ package cdb
 //@ extern hash Hash.Reset
 //@ updates hN
 //@ ensures hN == upd(old(hN), recv, 0)
+// (one contract for io.Writer.Write in every package: besides the hasher trace it appends a Bytes token to the token
+// stream the text/binary codecs of package dnsdata are specified with)
+//@ ghostvar ntok nat
+//@ ghostvar tokK seq
+//@ ghostvar tokB (Array Int Slice)
 //@ extern io Writer.Write
-//@ updates hN, hL
+//@ updates hN, hL, ntok, tokK, tokB
 //@ ensures[tee] teeOf[recv] != 0 && err == nil ==> hN == upd(old(hN), teeOf[recv], old(hN)[teeOf[recv]] + 1) && hL == upd(old(hL), teeOf[recv], string(p))
 //@ ensures[other] teeOf[recv] == 0 ==> hN == old(hN) && hL == old(hL)
 //@ ensures[hasher] teeOf[recv] == recv ==> err == nil
+//@ ensures[token] ntok == old(ntok) + 1 && tokK == upd(old(tokK), old(ntok), 2) && tokB == upd(old(tokB), old(ntok), p)
 //@ extern hash Hash32.Sum32
 //@ pure
 //@ ensures hN[recv] == 1 ==> result == spookyStream(hL[recv])
